@@ -2,7 +2,9 @@ package c09
 
 import (
 	"encoding/json"
+	"errors"
 	"fmt"
+	"github.com/influxdata/kapacitor/services/storage"
 	"sort"
 	"strings"
 	"testing"
@@ -48,6 +50,8 @@ func opsB(thorough bool) []BOp {
 			}
 		}
 	}
+	// an event without any tag: a match expression that reads a tag cannot be evaluated on it (no match)
+	r = append(r, BOp{Kind: "collect", Topic: "t1", ID: "c", Level: alert.Critical})
 	ms := matches
 	if !thorough {
 		ms = []string{"", `changed() == TRUE`, `level() >= WARNING`, `"tag" == 'x'`, `alertDuration() > 1s`}
@@ -74,10 +78,50 @@ func dataOf(id string, level alert.Level) evData {
 	if id == "b" {
 		d = evData{name: "n", task: "other", tag: "y"}
 	}
+	if id == "c" {
+		d = evData{name: "m", task: "tk", tag: ""} // no tags at all
+	}
 	if level == alert.Critical {
 		d.dur = 2 * time.Second
 	}
 	return d
+}
+
+type badTopicStore struct{ storage.Interface }
+
+func (b *badTopicStore) Update(f func(storage.Tx) error) error {
+	return b.Interface.Update(func(tx storage.Tx) error { return f(&badTopicTx{Tx: tx}) })
+}
+
+type badTopicTx struct{ storage.Tx }
+
+func (t *badTopicTx) Bucket(name []byte) storage.Tx {
+	if string(name) == "tbad" {
+		return &failingTx{Tx: t.Tx.Bucket(name)}
+	}
+	if in := t.Tx.Bucket(name); in != nil {
+		return &badTopicTx{Tx: in}
+	}
+	return nil
+}
+func (t *badTopicTx) Put(key string, value []byte) error {
+	if strings.Contains(key, "tbad") {
+		return errors.New("injected: no writes for topic tbad")
+	}
+	return t.Tx.Put(key, value)
+}
+
+type failingTx struct{ storage.Tx }
+
+func (t *failingTx) Put(key string, value []byte) error {
+	return errors.New("injected: no writes for topic tbad")
+}
+
+func tagsOf(d evData) map[string]string {
+	if d.tag == "" {
+		return nil
+	}
+	return map[string]string{"tag": d.tag}
 }
 
 func refMatch(m string, level, prev alert.Level, d evData) bool {
@@ -145,7 +189,11 @@ func (m *modelB) collect(topic, id string, level alert.Level, logs map[string][]
 // runB executes the history on a fresh alert service and compares the per-handler logs.
 func runB(hist []BOp) (p *problem) {
 	cmd := &kit.FakeCommander{}
-	env, err := kit.NewAlertEnv("c09", kit.AlertOpts{Commander: cmd})
+	// topic persistence is on and the store refuses every write for topic "tbad": publishing to it fails, which must
+	// not keep the publish handler from serving its other target
+	env, err := kit.NewAlertEnv("c09", kit.AlertOpts{Commander: cmd, Persist: true, WrapStore: func(ns string, in storage.Interface) storage.Interface {
+		return &badTopicStore{Interface: in}
+	}})
 	if err != nil {
 		return &problem{"internal", err.Error()}
 	}
@@ -167,7 +215,7 @@ func runB(hist []BOp) (p *problem) {
 		case "collect":
 			d := dataOf(o.ID, o.Level)
 			ev := alert.Event{Topic: o.Topic, State: alert.EventState{ID: o.ID, Level: o.Level, Time: t0.Add(time.Duration(i) * time.Second), Duration: d.dur},
-				Data: alert.EventData{Name: d.name, TaskName: d.task, Tags: map[string]string{"tag": d.tag}}}
+				Data: alert.EventData{Name: d.name, TaskName: d.task, Tags: tagsOf(d)}}
 			if err := as.Collect(ev); err != nil {
 				return &problem{"collect-error", fmt.Sprintf("Collect failed: %v after %v", err, hist[:i+1])}
 			}
@@ -206,7 +254,7 @@ func runB(hist []BOp) (p *problem) {
 			delete(m.handlers, o.ID)
 			m.handlers[o.NewID] = &hmodel{match: o.Match}
 		case "publish":
-			err := as.RegisterHandlerSpec(alertservice.HandlerSpec{ID: "p", Topic: "t1", Kind: "publish", Options: map[string]interface{}{"topics": []string{"t2"}}})
+			err := as.RegisterHandlerSpec(alertservice.HandlerSpec{ID: "p", Topic: "t1", Kind: "publish", Options: map[string]interface{}{"topics": []string{"tbad", "t2"}}})
 			if m.publish != (err != nil) {
 				return &problem{"register-result", fmt.Sprintf("register publish handler returned %v, already registered: %v", err, m.publish)}
 			}
@@ -274,6 +322,9 @@ func runB(hist []BOp) (p *problem) {
 		}
 	}
 	for _, e := range env.Diag.ErrorsCopy() {
+		if e.Msg == "failed to evaluate match expression" && strings.Contains(e.Err, "no tag exists") {
+			continue // the tagless event under a match expression that reads a tag: reported, not matched
+		}
 		return &problem{"service-error", fmt.Sprintf("diagnostic error %+v after %v", e, hist)}
 	}
 	return nil
